@@ -590,6 +590,190 @@ def render_pair(case):
     return res
 
 
+# ------------------------------------------------------------------------------------------ shared Pending
+
+class _CountingLogger:
+    def __init__(self):
+        self.n = 0
+
+    def warning(self, *a, **k):
+        self.n += 1
+
+    def __getattr__(self, name):
+        return lambda *a, **k: None
+
+
+def _pending_of(name, value):
+    """the Pending object preprocess_declarations makes for `name: value`, and the longhands that share it"""
+    import tinycss2
+    from weasyprint.css.utils import Pending
+    from weasyprint.css.validation import preprocess_declarations
+    out = list(preprocess_declarations(BASE_URL, tinycss2.parse_blocks_contents('%s:%s' % (name, value))))
+    obj = next((v for _, v, _ in out if isinstance(v, Pending)), None)
+    if obj is None:
+        return None, []
+    return obj, [k.replace('_', '-') for k, v, _ in out if v is obj]
+
+
+def _solved(obj, env):
+    from weasyprint.css import resolve_var
+    solved = []
+    for token in obj.tokens:
+        r = resolve_var(env, token, None)
+        if r is None:
+            solved.append(token)
+        else:
+            solved.extend(r)
+    return solved
+
+
+def _solve(obj, solved, key):
+    """one call of Pending.solve on obj: (code, value id, number of warnings)"""
+    from weasyprint.css import utils
+    from weasyprint.css.utils import InvalidValues
+    counter = _CountingLogger()
+    saved = utils.LOGGER
+    utils.LOGGER = counter
+    try:
+        try:
+            v = obj.solve(solved, key)
+            return [2, vid(v), counter.n]
+        except InvalidValues:
+            return [0, 0, counter.n]
+        except Exception:   # noqa
+            return [1, 0, counter.n]
+    finally:
+        utils.LOGGER = saved
+
+
+def pending_seq(case):
+    """case: dict(name=, value= (with var()), calls=[dict(env={'--x': text}, key=index)]).
+    The calls are made in order on ONE Pending object (what ComputedStyle.__missing__ does for the elements a rule
+    matches), and each on a fresh object.  -> None when the declaration makes no Pending object, else
+    dict(is_property, shorthand, keys, calls=[[empty, [[key, vid]...], end, wanted]], shared=[[code, vid, warned]], fresh)"""
+    import tinycss2
+    from weasyprint.css.utils import InvalidValues, remove_whitespace
+    from weasyprint.css.validation.properties import validate_non_shorthand
+
+    class Env(dict):
+        def __missing__(self, key):
+            return []
+    obj, keys = _pending_of(case['name'], case['value'])
+    if obj is None or not keys:
+        return None
+    is_property = not hasattr(obj, 'validator')
+    shorthand = obj.name if is_property else obj.validator.keywords['name']
+    calls, shared, fresh = [], [], []
+    for c in case['calls']:
+        env = Env()
+        for k, v in c['env'].items():
+            env[k.replace('-', '_')] = tuple(remove_whitespace(tinycss2.parse_component_value_list(v)))
+        key = keys[c['key'] % len(keys)]
+        try:
+            solved = _solved(obj, env)
+        except (TypeError, RecursionError):
+            return None
+        # the trace of the validator on the substituted tokens
+        items, end = [], 0
+        try:
+            if is_property:
+                for k, v in validate_non_shorthand(solved, obj.name):
+                    items.append([_clean(k), vid(v)])
+            else:
+                for k, v in obj.validator(solved):
+                    items.append([_clean(k), vid(v)])
+        except InvalidValues:
+            end = 1
+        except Exception:   # noqa
+            end = 2
+        calls.append([not solved, items, end, _clean(key)])
+        shared.append(_solve(obj, solved, key))
+        fobj, _ = _pending_of(case['name'], case['value'])
+        fresh.append(_solve(fobj, _solved(fobj, env), key))
+    return dict(is_property=is_property, shorthand=_clean(shorthand), keys=keys, calls=calls, shared=shared, fresh=fresh)
+
+
+FOUR_FAMILY = ('margin', 'padding', 'border-width', 'border-style', 'border-color')
+
+
+def _unset_decls(longhands):
+    from weasyprint.css.properties import INHERITED
+    return ['%s:%s' % (k, 'inherit' if k.replace('-', '_') in INHERITED else 'initial') for k in longhands]
+
+
+def shared_pair(case):
+    """case: dict(template= html with @@RULES@@, selector= of the shared rule, decls=[dict(prop=, value= with var())],
+    elems=[dict(id=, subst=[substituted value text or None (guaranteed-invalid) per declaration], erased=[the same
+    with the undefined var() erased])]).
+    A: one rule `selector{decls}` for all the elements.  B: the textual-substitution reference, one rule per element:
+    `prop: substituted` where that is a valid declaration, else every longhand of prop unset (initial / inherit).
+    Controls of the open findings (a deviation is theirs only if A equals the control):
+      F161 var:shorthand-partial - as B, but in a four-sides shorthand the sides validated before the first invalid
+        one keep their value;
+      var:undefined-dropped - as B, but an undefined var() without fallback is erased from the declaration.
+    -> dict(same, diff, mechanism=[signatures] or None, a, b, valid)"""
+    import tinycss2
+    from weasyprint.css.utils import InvalidValues, remove_whitespace
+    from weasyprint.css.validation.expanders import EXPANDERS
+    longs = []
+    for d in case['decls']:
+        obj, keys = _pending_of(d['prop'], d['value'])
+        if obj is None:
+            raise RuntimeError('no Pending object for %s:%s' % (d['prop'], d['value']))
+        r = _pp(tinycss2.parse_blocks_contents('%s:%s' % (d['prop'], d['value'])))
+        longs.append([n.replace('_', '-') for n, _, _ in r[1]])
+
+    def accepted(prop, text):
+        r = _pp(tinycss2.parse_blocks_contents('%s:%s' % (prop, text)))
+        if r[0] != 'ok':
+            raise RuntimeError('substituted declaration crashes: %s' % (r[1],))
+        return len(r[1]) > 0
+
+    def reference(partial, erase):
+        rules, used = [], set()
+        for e in case['elems']:
+            out = []
+            for d, sub, era, lh in zip(case['decls'], e['subst'], e['erased'], longs):
+                if sub is None and erase:
+                    sub = era
+                    used.add('var:undefined-dropped')
+                if sub is not None and accepted(d['prop'], sub):
+                    out.append('%s:%s' % (d['prop'], sub))
+                    continue
+                kept = {}
+                if partial and sub is not None and d['prop'] in FOUR_FAMILY:
+                    toks = remove_whitespace(tinycss2.parse_component_value_list(sub))
+                    texts = [t.serialize() for t in toks]
+                    if 1 <= len(texts) <= 4:
+                        second = texts[1] if len(texts) > 1 else texts[0]
+                        sides = [texts[0], second, texts[2] if len(texts) > 2 else texts[0],
+                                 texts[3] if len(texts) > 3 else second]
+                        try:
+                            for i, (k, v) in enumerate(EXPANDERS[d['prop']](tuple(toks), d['prop'], BASE_URL)):
+                                kept[k] = sides[i]
+                        except InvalidValues:
+                            pass
+                if kept:
+                    used.add('var:shorthand-partial')
+                out += ['%s:%s' % (k, kept[k]) for k in lh if k in kept] + _unset_decls([k for k in lh if k not in kept])
+            rules.append('#%s{%s}' % (e['id'], ';'.join(out)))
+        return case['template'].replace('@@RULES@@', ''.join(rules)), used
+
+    a = case['template'].replace('@@RULES@@', '%s{%s}' % (case['selector'], ';'.join(
+        '%s:%s' % (d['prop'], d['value']) for d in case['decls'])))
+    b, _ = reference(False, False)
+    res = fingerprint_pair({'a': a, 'b': b})
+    verdicts = [sub is not None and accepted(d['prop'], sub) for e in case['elems'] for d, sub in zip(case['decls'], e['subst'])]
+    res.update(a=a, b=b, valid=verdicts, mechanism=None)
+    if not res['same']:
+        for partial, erase in ((True, False), (False, True), (True, True)):
+            c, used = reference(partial, erase)
+            if used and c != b and fingerprint_pair({'a': a, 'b': c})['same']:
+                res['mechanism'] = sorted(used)
+                break
+    return res
+
+
 def multi(case):
     """several streams share one worker pool"""
     case = dict(case)
